@@ -93,8 +93,13 @@ def wrap(gen, kind, inner, depth, files):
         return [f] + lines + [f], [(m, i + 1, k, *r) if not (r and r[0]) else (m, i, k, r[0]) for m, i, k, *r in marks]
     if kind.startswith("inc"):
         # include of a generated file; optionally with :start-line:
-        skip = 2 if kind == "inc-start" else 0
+        skip = 2 if kind == "inc-start" else 3 if kind == "inc-after" else 0
         name = f"inc{len(files)}.md"
+        if kind == "inc-after":
+            # :start-after: a marker that ends line 3 of the file (the rest of that line and line 3's break are skipped text)
+            files[name] = "\n".join(["skipped line one", "", "a longer skipped line with the STARTMARK"] + lines) + "\n"
+            out = ["```{include} " + name, ":start-after: STARTMARK", "```"]
+            return out, [(m, i + skip, k, (r[0] if r and r[0] else name)) if not (r and r[0]) else (m, i, k, r[0]) for m, i, k, *r in marks]
         files[name] = "\n".join(["skipped line"] * skip + lines) + "\n"
         out = ["```{include} " + name] + ([f":start-line: {skip}"] if skip else []) + ["```"]
         return out, [(m, i + skip, k, (r[0] if r and r[0] else name)) if not (r and r[0]) else (m, i, k, r[0]) for m, i, k, *r in marks]
@@ -114,7 +119,7 @@ def wrap(gen, kind, inner, depth, files):
 
 DIRS_FULL = [f"dir|{f}|{o}|{ba}|{bb}|{n}" for f in "`:" for o in ("none", "one", "two", "yaml", "yamlblank") for ba in "012" for bb in "01" for n in ("note", "admonition")]
 DIRS_SMALL = [f"dir|{f}|{o}|{ba}|{bb}|note" for f in "`:" for o in ("none", "one", "yaml") for ba, bb in (("0", "0"), ("1", "1"), ("2", "0"))]
-BASIC = ["quote", "bullet", "ordered", "div", "inc", "inc-start"]
+BASIC = ["quote", "bullet", "ordered", "div", "inc", "inc-start", "inc-after"]
 
 
 def features(ws, leafkind):
@@ -203,17 +208,21 @@ class ShapeSystem(System):
         lines = lines + ["", "{" + twarn + "}`x` after"]
         return ok, lines, marks, files
 
+    def render(self, text, files):
+        wdir = getattr(self, "wdir", None) or self.dir
+        for name, content in files.items():
+            (wdir / name).write_text(content)
+        src = str(wdir / "x.md")
+        d, w = docutils_doctree(text, {"myst_enable_extensions": EXT}, source_path=src)
+        return d, w, src, wdir
+
     def run(self, case):
         lk, ws = case
         ok, lines, marks, files = self.build(case)
         if not ok:
             return Obs(digest="skipped", nontrivial=False, stats={"grammar_skipped": 1})
-        wdir = getattr(self, "wdir", None) or self.dir
-        for name, content in files.items():
-            (wdir / name).write_text(content)
-        src = str(wdir / "x.md")
         text = "\n".join(lines) + "\n"
-        d, w = docutils_doctree(text, {"myst_enable_extensions": EXT}, source_path=src)
+        d, w, src, wdir = self.render(text, files)
         feats = features(ws, lk)
         viol = []
         dig = []
@@ -290,6 +299,50 @@ class ShapeSystem(System):
         return Obs(digest=(lk, tuple(dig)), nontrivial=bool(ws), violations=viol[:5], canon=(lk, tuple(ws)))
 
 
+class SphinxShapeSystem(ShapeSystem):
+    """the same shapes read by an in-process Sphinx application: node lines in the stored doctree, file and line of every logged warning"""
+
+    name = "shapes-sphinx"
+    jobs = 8
+
+    def __init__(self, tier):
+        super().__init__(tier)
+        self.description = (f"{len(LEAVES_Q)} leaf kinds x wrapper chains of depth <= 1 over all {len(BASIC) + len(DIRS_FULL)} wrappers (thorough: + depth 2 over the basic wrappers and "
+                            f"{len(DIRS_SMALL)} layouts) through the Sphinx front end: the log line of every warning must name the real file and the true line")
+
+    def prepare(self, ctx):
+        self.dir = ctx.scratch / "c04sx"
+        self.dir.mkdir(exist_ok=True)
+
+    def worker_init(self, wid):
+        from ..drivers import SphinxDriver
+
+        self.drv = SphinxDriver(self.dir / f"w{wid}", conf=f"myst_enable_extensions={EXT!r}\n")
+        self.wdir = self.drv.src
+
+    def cases(self):
+        full = BASIC + DIRS_FULL
+        small = BASIC + DIRS_SMALL
+        for lk in LEAVES_Q:
+            yield [lk, []]
+            for w in full:
+                yield [lk, [w]]
+            if self.tier != "quick":
+                for w1 in small:
+                    for w2 in small:
+                        yield [lk, [w1, w2]]
+
+    def render(self, text, files):
+        if not hasattr(self, "drv"):
+            self.worker_init(99)
+        for name, content in files.items():
+            (self.wdir / name).write_text(content)
+        d, w = self.drv.read("x", text)
+        # 'path:line: WARNING: msg [tag]' -> the docutils spelling the oracle reads
+        w = re.sub(r"^(.*?:\d+): (WARNING|ERROR): ", lambda m: f"{m.group(1)}: ({m.group(2)}/2) ", re.sub(r"\x1b\[[0-9;]*m", "", w), flags=re.M)
+        return d, w, str(self.wdir / "x.md"), self.wdir
+
+
 def _first_marker(node):
     for t in node.findall(nodes.Text):
         for wd in t.astext().split():
@@ -299,4 +352,4 @@ def _first_marker(node):
 
 
 def systems(tier):
-    return [ShapeSystem(tier)]
+    return [ShapeSystem(tier), SphinxShapeSystem(tier)]
